@@ -132,6 +132,115 @@ POOL = {
     "1.2.840.10008.15.99.1": ("unassigned DICOM-root UID", "unknown-public"),
 }
 
+# Wider classification tables for the unrestricted-mode classification probe (PS3.6 Table A-1 "SOP Class"
+# entries; service class per PS3.4).  Only the category matters.
+KNOWN_NON_STORAGE = {
+    "1.2.840.10008.1.1": "Verification",
+    "1.2.840.10008.1.20.1": "Storage Commitment Push Model",
+    "1.2.840.10008.1.40": "Procedural Event Logging",
+    "1.2.840.10008.1.42": "Substance Administration Logging",
+    "1.2.840.10008.3.1.2.3.3": "Modality Performed Procedure Step",
+    "1.2.840.10008.3.1.2.3.4": "Modality Performed Procedure Step Retrieve",
+    "1.2.840.10008.3.1.2.3.5": "Modality Performed Procedure Step Notification",
+    "1.2.840.10008.5.1.1.1": "Basic Film Session",
+    "1.2.840.10008.5.1.1.2": "Basic Film Box",
+    "1.2.840.10008.5.1.1.4": "Basic Grayscale Image Box",
+    "1.2.840.10008.5.1.1.4.1": "Basic Color Image Box",
+    "1.2.840.10008.5.1.1.9": "Basic Grayscale Print Management Meta",
+    "1.2.840.10008.5.1.1.14": "Print Job",
+    "1.2.840.10008.5.1.1.15": "Basic Annotation Box",
+    "1.2.840.10008.5.1.1.16": "Printer",
+    "1.2.840.10008.5.1.1.16.376": "Printer Configuration Retrieval",
+    "1.2.840.10008.5.1.1.18": "Basic Color Print Management Meta",
+    "1.2.840.10008.5.1.1.23": "Presentation LUT",
+    "1.2.840.10008.5.1.1.33": "Media Creation Management",
+    "1.2.840.10008.5.1.1.40": "Display System",
+    "1.2.840.10008.5.1.4.1.2.1.1": "Patient Root Q/R FIND",
+    "1.2.840.10008.5.1.4.1.2.1.2": "Patient Root Q/R MOVE",
+    "1.2.840.10008.5.1.4.1.2.1.3": "Patient Root Q/R GET",
+    "1.2.840.10008.5.1.4.1.2.2.1": "Study Root Q/R FIND",
+    "1.2.840.10008.5.1.4.1.2.2.2": "Study Root Q/R MOVE",
+    "1.2.840.10008.5.1.4.1.2.2.3": "Study Root Q/R GET",
+    "1.2.840.10008.5.1.4.1.2.3.1": "Patient/Study Only Q/R FIND (retired)",
+    "1.2.840.10008.5.1.4.1.2.3.2": "Patient/Study Only Q/R MOVE (retired)",
+    "1.2.840.10008.5.1.4.1.2.3.3": "Patient/Study Only Q/R GET (retired)",
+    "1.2.840.10008.5.1.4.1.2.4.2": "Composite Instance Root Retrieve MOVE",
+    "1.2.840.10008.5.1.4.1.2.4.3": "Composite Instance Root Retrieve GET",
+    "1.2.840.10008.5.1.4.1.2.5.3": "Composite Instance Retrieve Without Bulk Data GET",
+    "1.2.840.10008.5.1.4.20.1": "Defined Procedure Protocol FIND",
+    "1.2.840.10008.5.1.4.20.2": "Defined Procedure Protocol MOVE",
+    "1.2.840.10008.5.1.4.20.3": "Defined Procedure Protocol GET",
+    "1.2.840.10008.5.1.4.31": "Modality Worklist FIND",
+    "1.2.840.10008.5.1.4.33": "Instance Availability Notification",
+    "1.2.840.10008.5.1.4.34.6.1": "Unified Procedure Step Push",
+    "1.2.840.10008.5.1.4.34.6.2": "Unified Procedure Step Watch",
+    "1.2.840.10008.5.1.4.34.6.3": "Unified Procedure Step Pull",
+    "1.2.840.10008.5.1.4.34.6.4": "Unified Procedure Step Event",
+    "1.2.840.10008.5.1.4.34.6.5": "Unified Procedure Step Query",
+    "1.2.840.10008.5.1.4.34.8": "RT Conventional Machine Verification",
+    "1.2.840.10008.5.1.4.34.9": "RT Ion Machine Verification",
+    "1.2.840.10008.5.1.4.37.1": "General Relevant Patient Information Query",
+    "1.2.840.10008.5.1.4.37.2": "Breast Imaging Relevant Patient Information Query",
+    "1.2.840.10008.5.1.4.37.3": "Cardiac Relevant Patient Information Query",
+    "1.2.840.10008.5.1.4.38.2": "Hanging Protocol FIND",
+    "1.2.840.10008.5.1.4.38.3": "Hanging Protocol MOVE",
+    "1.2.840.10008.5.1.4.38.4": "Hanging Protocol GET",
+    "1.2.840.10008.5.1.4.39.2": "Color Palette Q/R FIND",
+    "1.2.840.10008.5.1.4.39.3": "Color Palette Q/R MOVE",
+    "1.2.840.10008.5.1.4.39.4": "Color Palette Q/R GET",
+    "1.2.840.10008.5.1.4.41": "Product Characteristics Query",
+    "1.2.840.10008.5.1.4.42": "Substance Approval Query",
+    "1.2.840.10008.5.1.4.43.2": "Generic Implant Template FIND",
+    "1.2.840.10008.5.1.4.43.3": "Generic Implant Template MOVE",
+    "1.2.840.10008.5.1.4.43.4": "Generic Implant Template GET",
+    "1.2.840.10008.5.1.4.44.2": "Implant Assembly Template FIND",
+    "1.2.840.10008.5.1.4.44.3": "Implant Assembly Template MOVE",
+    "1.2.840.10008.5.1.4.44.4": "Implant Assembly Template GET",
+    "1.2.840.10008.5.1.4.45.2": "Implant Template Group FIND",
+    "1.2.840.10008.5.1.4.45.3": "Implant Template Group MOVE",
+    "1.2.840.10008.5.1.4.45.4": "Implant Template Group GET",
+    "1.2.840.10008.5.1.4.1.1.200.4": "Protocol Approval FIND",
+    "1.2.840.10008.5.1.4.1.1.200.5": "Protocol Approval MOVE",
+    "1.2.840.10008.5.1.4.1.1.200.6": "Protocol Approval GET",
+    "1.2.840.10008.5.1.4.1.1.201.2": "Inventory FIND",
+    "1.2.840.10008.5.1.4.1.1.201.3": "Inventory MOVE",
+    "1.2.840.10008.5.1.4.1.1.201.4": "Inventory GET",
+    "1.2.840.10008.5.1.4.1.1.201.5": "Inventory Creation",
+}
+
+KNOWN_STORAGE = {
+    "1.2.840.10008.5.1.4.1.1.1": "Computed Radiography Image Storage",
+    "1.2.840.10008.5.1.4.1.1.1.1": "Digital X-Ray Image Storage - For Presentation",
+    "1.2.840.10008.5.1.4.1.1.1.2": "Digital Mammography X-Ray Image Storage - For Presentation",
+    "1.2.840.10008.5.1.4.1.1.2": "CT Image Storage",
+    "1.2.840.10008.5.1.4.1.1.2.1": "Enhanced CT Image Storage",
+    "1.2.840.10008.5.1.4.1.1.4": "MR Image Storage",
+    "1.2.840.10008.5.1.4.1.1.4.1": "Enhanced MR Image Storage",
+    "1.2.840.10008.5.1.4.1.1.6.1": "Ultrasound Image Storage",
+    "1.2.840.10008.5.1.4.1.1.7": "Secondary Capture Image Storage",
+    "1.2.840.10008.5.1.4.1.1.9.1.1": "12-lead ECG Waveform Storage",
+    "1.2.840.10008.5.1.4.1.1.11.1": "Grayscale Softcopy Presentation State Storage",
+    "1.2.840.10008.5.1.4.1.1.12.1": "X-Ray Angiographic Image Storage",
+    "1.2.840.10008.5.1.4.1.1.12.2": "X-Ray Radiofluoroscopic Image Storage",
+    "1.2.840.10008.5.1.4.1.1.20": "Nuclear Medicine Image Storage",
+    "1.2.840.10008.5.1.4.1.1.66": "Raw Data Storage",
+    "1.2.840.10008.5.1.4.1.1.66.4": "Segmentation Storage",
+    "1.2.840.10008.5.1.4.1.1.77.1.4": "VL Photographic Image Storage",
+    "1.2.840.10008.5.1.4.1.1.88.11": "Basic Text SR Storage",
+    "1.2.840.10008.5.1.4.1.1.88.22": "Enhanced SR Storage",
+    "1.2.840.10008.5.1.4.1.1.88.33": "Comprehensive SR Storage",
+    "1.2.840.10008.5.1.4.1.1.88.59": "Key Object Selection Document Storage",
+    "1.2.840.10008.5.1.4.1.1.104.1": "Encapsulated PDF Storage",
+    "1.2.840.10008.5.1.4.1.1.128": "Positron Emission Tomography Image Storage",
+    "1.2.840.10008.5.1.4.1.1.481.2": "RT Dose Storage",
+    "1.2.840.10008.5.1.4.1.1.481.3": "RT Structure Set Storage",
+    "1.2.840.10008.5.1.4.1.1.481.5": "RT Plan Storage",
+}
+
+WIDE_POOL = dict(POOL)
+WIDE_POOL.update({u: (n, "non-storage") for u, n in KNOWN_NON_STORAGE.items()})
+WIDE_POOL.update({u: (n, "storage") for u, n in KNOWN_STORAGE.items()})
+
 TRANSFER_SYNTAXES = [
     "1.2.840.10008.1.2",        # Implicit VR Little Endian
     "1.2.840.10008.1.2.1",      # Explicit VR Little Endian
@@ -144,7 +253,7 @@ TRANSFER_SYNTAXES = [
 
 def category(abstract_syntax, pool=None):
     """'private' | 'storage' | 'non-storage' | 'unknown-public' (pool = {uid: (name, category)})."""
-    pool = POOL if pool is None else pool
+    pool = WIDE_POOL if pool is None else pool
     if not abstract_syntax.startswith(DICOM_ROOT):
         return "private"
     if abstract_syntax in pool:
